@@ -133,4 +133,11 @@ func init() {
 		C11Migrate(ctx, run)
 		C11LoadGrowPrune(ctx, run)
 	}
+	// what Load registers for restored headers is a lookup matter (C09) and only shows once a later
+	// prune drops them from memory (C10): the same scenario decides those clauses too
+	Extra["C09"] = C11LoadGrowPrune
+	Extra["C10"] = func(ctx context.Context, run *common.Run) {
+		C11LoadGrowPrune(ctx, run)
+		C10MarkThenPrune(ctx, run)
+	}
 }
